@@ -254,6 +254,8 @@ func runC09(c *kit.Ctx) {
 	// ---- R4 ---------------------------------------------------------------
 	c.StartRule("R4", "waiters re-validate after wake-up", 2)
 	probeClassifiesOutcome(c)
+	lookupErrorsAreTheKnownOnes(c)
+	failedAttemptRelooksUp(c)
 	// the channel waited on is the very value that was tested non-nil
 	kit.Instrs(gr, func(in ssa.Instruction) {
 		sel, ok := in.(*ssa.Select)
